@@ -202,9 +202,10 @@ def leakytanh_(ctx):
     # documented: value and gradient of the linear segments match tanh at +-max_val
     lem = [exp(tanh_log_grad_term(m)) == 1 - tanh(m) * tanh(m)]  # instance of lemma C02/_tanh_log_grad (discharged in its own family)
     props = ["C07", "C01", "C02", "C18", "C04"]
-    ctx.oblige("C07/LeakyTanh.__init__/post/max_val", m_t == m, [m > 0], props, fn=qual + ".__init__")
-    ctx.oblige("C07/LeakyTanh.__init__/post/linear_grad_is_tanh_slope", g_t == 1 - tanh(m) * tanh(m), [m > 0] + lem, props, fn=qual + ".__init__", rounds=3, cites=["C02/_tanh_log_grad/post/is_log_derivative"])
-    ctx.oblige("C07/LeakyTanh.__init__/post/intercept_continuous", c_t == tanh(m) - (1 - tanh(m) * tanh(m)) * m, [m > 0] + lem, props, fn=qual + ".__init__", rounds=3)
+    rpi = dict(kind="leaf", cls="LeakyTanh", method="transform", input="x", vars=dict(max_val=m, x=m + 1))
+    ctx.oblige("C07/LeakyTanh.__init__/post/max_val", m_t == m, [m > 0], props, fn=qual + ".__init__", replay=rpi)
+    ctx.oblige("C07/LeakyTanh.__init__/post/linear_grad_is_tanh_slope", g_t == 1 - tanh(m) * tanh(m), [m > 0] + lem, props, fn=qual + ".__init__", rounds=3, cites=["C02/_tanh_log_grad/post/is_log_derivative"], replay=rpi)
+    ctx.oblige("C07/LeakyTanh.__init__/post/intercept_continuous", c_t == tanh(m) - (1 - tanh(m) * tanh(m)) * m, [m > 0] + lem, props, fn=qual + ".__init__", rounds=3, replay=rpi)
     inv = z3.And(m > 0, g == 1 - tanh(m) * tanh(m), c == tanh(m) - g * m)
 
     def F(x):
